@@ -19,6 +19,40 @@ def scenarios(ctx):
                "ast": ast, "expr": B.render(ast, full=rng.random() < 0.5), "webhook": rng.random() < 0.3}
         lat = {100: (0, 0, 1, 5, 20), 250: (0, 0, 2, 8), 1000: (0, 0, 1, 2)}[tick]
         out.append({"id": "expr-%d" % i, "cfg": cfg, "steps": B.history(rng, 120 if quick else 400, tick, lat_ticks=lat)})
+    # long-lived breakers: responses in more than six successive 10 s periods (the rolling latency histogram has wrapped),
+    # then a trip on a latency condition, the fallback and recovery periods, and fast responses afterwards: the metrics
+    # window since the trip contains only those
+    for i in range(12 if quick else 80):
+        tick = 1000
+        q, ms = rng.choice([(50, 100), (50, 300), (90, 1000), (99, 300)])
+        ast = {"k": "latency", "q": q, "op": rng.choice([">", ">="]), "ms": ms}
+        fallback, recovery = rng.randint(1, 12), rng.randint(1, 12)
+        cfg = {"tick_ms": tick, "fallback": fallback, "recovery": recovery, "check": 1, "ast": ast, "expr": B.render(ast)}
+        steps, rid = [], 0
+        def req(code, hold):
+            nonlocal rid
+            rid += 1
+            steps.append({"op": "start", "r": rid})
+            if hold:
+                steps.append({"op": "adv", "d": hold})
+            steps.append({"op": "finish", "r": rid, "code": code})
+        for _ in range(rng.randint(3, 6)):
+            req(200, 0)
+        periods = rng.randint(6, 9)
+        for pnum in range(periods):
+            steps.append({"op": "adv", "d": 10})
+            slow = pnum >= rng.randint(0, 2)
+            for _ in range(rng.randint(1, 3)):
+                req(200, rng.choice([2, 3, 5]) if slow else 0)
+        for _ in range(8):      # make sure the slow tail dominates and trips
+            req(200, 5)
+        steps.append({"op": "adv", "d": fallback + 1})
+        req(200, 0)
+        steps.append({"op": "adv", "d": recovery + 1})
+        for _ in range(rng.randint(2, 6)):
+            req(200, 0)
+            steps.append({"op": "adv", "d": 2})
+        out.append({"id": "histwrap-%d" % i, "cfg": cfg, "steps": steps})
     return out
 
 
